@@ -41,16 +41,16 @@ type c10Stream struct {
 }
 
 type c10Case struct {
-	Gen     string `json:"gen"` // codec | encobj | decobj
-	TS      string `json:"ts,omitempty"`
-	W       int    `json:"w,omitempty"`
-	H       int    `json:"h,omitempty"`
-	BA      int    `json:"ba,omitempty"`
-	BS      int    `json:"bs,omitempty"`
-	SPP     int    `json:"spp,omitempty"`
-	PR      int    `json:"pr,omitempty"`
-	Pattern string `json:"pattern,omitempty"`
-	PKind   string `json:"pkind,omitempty"` // nil | default
+	Gen     string     `json:"gen"` // codec | encobj | decobj
+	TS      string     `json:"ts,omitempty"`
+	W       int        `json:"w,omitempty"`
+	H       int        `json:"h,omitempty"`
+	BA      int        `json:"ba,omitempty"`
+	BS      int        `json:"bs,omitempty"`
+	SPP     int        `json:"spp,omitempty"`
+	PR      int        `json:"pr,omitempty"`
+	Pattern string     `json:"pattern,omitempty"`
+	PKind   string     `json:"pkind,omitempty"` // nil | default
 	Frames  []c10Frame `json:"frames,omitempty"`
 	// encobj
 	EncKind string `json:"enckind,omitempty"`
@@ -576,10 +576,10 @@ func c10MakeStream(s c10Stream) ([]byte, error) {
 }
 
 type c10Obs struct {
-	err              string
-	w, h, c, p       int
-	signed           bool
-	px               []byte
+	err        string
+	w, h, c, p int
+	signed     bool
+	px         []byte
 }
 
 func observeDecode(d *jpeg2000.Decoder, cs []byte) (o c10Obs) {
